@@ -455,7 +455,7 @@ theorem appShutdown_eff (e : EP) (h : Nat) : Eff (· = hfid e h) e (appShutdown 
     have ho := handleObj_obj hh
     simp only
     split
-    · exact Eff.refl _ e
+    · exact Eff.modObj e i _ (fun _ => rfl) (by intro o' ho'; rw [ho] at ho'; cases ho'; rfl)
     · exact (Eff.enqFrameT _ _ rfl (by intro z hz; simp [Msg.flow?, Frame.id] at hz; exact hz.symm)).after
         (Eff.modObj e i _ (fun _ => rfl) (by intro o' ho'; rw [ho] at ho'; cases ho'; rfl))
 
